@@ -31,6 +31,8 @@ def words (line : String) : List String :=
 
 def showBool (b : Bool) : String := if b then "true" else "false"
 
+def b01 (b : Bool) : String := if b then "1" else "0"
+
 /-- a driver: initial state and a step on tokenised lines. -/
 structure Drv where
   σ : Type
